@@ -284,6 +284,10 @@ theorem apply_rk {s s' : St} {o : Op} {ra : Nat} (hi : Inv s) (e : apply s o = .
   | fraud au ra' hh rev p rw => exact fraud_rk (fun hc => hq hc) e
   | obsolete au vs => exact absurd trivial hq
   | punish au a rw => exact (punish_good (punishProposal_ok e).2).rk ra
+  | transferOwner sg ra' no =>
+    obtain ⟨r, hg, _, _, _, rfl⟩ := transferOwner_ok e
+    exact (Good.setRa rfl rfl rfl (r0 := r) (r1 := { r with owner := no })
+      (by show getRa s r.id = some r; rw [getRa_id hg]; exact hg) rfl (fun x => x.of_fields rfl rfl rfl)).rk ra
   | begin_ dt =>
     simp only [apply] at e; injection e with e; subst e
     exact (beginBlock_good hi.cust.nodup).rk ra
